@@ -54,6 +54,9 @@ type Frame struct {
 	defers    []Val
 	recoverSc bool
 	panicEdge []string
+	panicHeap []Heap   // heap at each routed panic point ("<dirty>" marks keys a panicking callee may have half-modified)
+	deferHeap Heap     // heap when the recovering defer was registered
+	pendingDirty []string
 	entryHeap Heap
 	env       map[string]Val // params/receiver/lets by name
 	recoverV  string         // value recover() returns in this (closure) frame
@@ -67,6 +70,9 @@ type Frame struct {
 	freshOverride string
 	calleePkg string
 	hypMode   bool
+	deferBlk  *ssa.BasicBlock
+	deferBlks []*ssa.BasicBlock
+	deferSeen bool
 }
 
 type abortErr struct{ msg string }
@@ -135,6 +141,9 @@ func (f *Frame) analyzeLoops() {
 				if p := ins.Pos(); p.IsValid() {
 					if _, isDbg := ins.(*ssa.DebugRef); isDbg {
 						continue
+					}
+					if _, isPhi := ins.(*ssa.Phi); isPhi {
+						continue // a phi carries the position of the variable's declaration
 					}
 					if !li.minPos.IsValid() || p < li.minPos {
 						li.minPos = p
@@ -226,6 +235,7 @@ func (f *Frame) runBlocks(blocks []*ssa.BasicBlock, entry *BState) {
 		}
 		f.cur = st
 		f.curBlock = b
+		f.deferSeen = false
 		if f.top {
 			f.s.curBlk = b
 		}
